@@ -29,7 +29,9 @@
    and the call validation of optimizer.go AFTER the repair of the defect found here:
 
      check_calls_fx     checkFunctionCalls(field, allowAggr = true) with the argument count of
-                        AGGREGATE functions tested next to the scalar ones.  Before the repair
+                        AGGREGATE functions tested next to the scalar ones (reported as
+                        AggregatePlan.Init reports it: ExecuteError at the call, so that nothing
+                        changes for a statement whose only fault is the count).  Before the repair
                         (Checker.check_calls) aggregate argument counts were tested by
                         AggregatePlan.Init only, i.e. on the folded fields:
                         `select (count(1,2) > 0) & false where true` is folded to `select false`,
@@ -94,7 +96,9 @@ Fixpoint check_calls_fx (e : expr) {struct e} : res unit :=
                        | None =>
                            match aggr_info nm with
                            | Some (nargs, varargs) =>
-                               if arity_bad nargs varargs (List.length args) then Checker.serr p else Ok tt
+                               (* NewExecuteError(e.GetPos(), "Function %s require %d arguments but got %d"):
+                                  the error AggregatePlan.Init reports *)
+                               if arity_bad nargs varargs (List.length args) then Err (EExec p) else Ok tt
                            | None => Checker.serr p
                            end
                        end);
@@ -236,7 +240,9 @@ Definition init_check (c : Checker.stmt) : res unit :=
 Inductive pares :=
   | PAOk (s : stmt) (c : Checker.stmt) (aggregate_plan : bool)
   | PAErr (k : pckind) (z : Z)       (* rejected before any plan node is initialised, as parse_check *)
-  | PAInitErr (e : err)              (* rejected by the Init chain: class (+ position) of the error *)
+  | PAInitErr (e : err)              (* rejected by the Init chain -- or, with the repaired call validation,
+                                        by its aggregate argument count test, which reports the
+                                        ExecuteError AggregatePlan.Init reported: class (+ position) *)
   | PAOutOfModel
   | PAPanic
   | PAFuel
@@ -271,6 +277,7 @@ Definition check_parsed_agg (s : stmt) : pares :=
           match stmt_calls c2 with
           | Ok _ => plan_stage_agg s c2
           | Err (ESyntax p) => PAErr KCalls (Z.of_nat p)
+          | Err (EExec p) => PAInitErr (EExec p)     (* repaired validation: an aggregate argument count *)
           | Err _ => PAOther
           | Panic => PAPanic
           | OutOfModel => PAOutOfModel
